@@ -178,6 +178,27 @@ def check_C01(tier, seed, replay=None):
 
 
 # ------------------------------------------------------------------------------------------
+def common_prefix_groups(rngp, n, gi0, preds=True):
+    """alternatives with a common prefix RULE, so that with Memoize the second alternative resumes after a cache hit; what
+    follows the hit is a newline, a multi-byte rune, or the end; every block that runs afterwards sees its position"""
+    from peg import Gram
+    out = []
+    for k_ in range(n):
+        g = Gram(gi0 + k_)
+        key = g.action(g.un("plus", g.cls((F.A, F.EACUTE), (), False, False))) if rngp.random() < 0.7 else g.seq([g.lit([F.A]), g.un("opt", g.lit([F.NL]))])
+        alts = []
+        for _a in range(rngp.randint(2, 3)):
+            suf = rngp.choice([g.lit([F.NL]), g.lit([F.A]), g.cls((F.EACUTE, F.NL), (), False, False), g.lit([F.NL, F.A]), g.any(), g.lit([F.EURO]), g.un("not", g.any())])
+            tail = g.action(g.un("star", g.action(g.any())))
+            alts.append(g.action(g.seq([g.label(g.ref(2)), suf] + ([g.pred(False, "true")] if preds else []) + [g.label(tail)])))
+        g.rules = [g.choice(alts), key]
+        g.disp = ["", ""]
+        g.compute_args()
+        g.maydiverge = g.may_diverge()
+        out.append(g)
+    return out
+
+
 def check_C02(tier, seed, replay=None):
     """code blocks observe the true match context: every event (also on abandoned alternatives) is compared"""
     import findings
@@ -211,21 +232,7 @@ def check_C02(tier, seed, replay=None):
     groups += F.random_groups(seed + 11, nrand // 2, cfg2, gi0=len(groups) + 1)
     # "however much backtracking or memoised skipping preceded": alternatives with a common prefix rule, so that with Memoize
     # the second alternative resumes after a cache hit; what follows the hit is a newline, a multi-byte rune, or the end
-    from peg import Gram
-    rngp = random.Random(seed + 17)
-    for _ in range(80 if tier == "quick" else 400):
-        g = Gram(len(groups) + 1)
-        key = g.action(g.un("plus", g.cls((F.A, F.EACUTE), (), False, False))) if rngp.random() < 0.7 else g.seq([g.lit([F.A]), g.un("opt", g.lit([F.NL]))])
-        alts = []
-        for _a in range(rngp.randint(2, 3)):
-            suf = rngp.choice([g.lit([F.NL]), g.lit([F.A]), g.cls((F.EACUTE, F.NL), (), False, False), g.lit([F.NL, F.A]), g.any(), g.lit([F.EURO]), g.un("not", g.any())])
-            tail = g.action(g.un("star", g.action(g.any())))
-            alts.append(g.action(g.seq([g.label(g.ref(2)), suf, g.pred(False, "true"), g.label(tail)])))
-        g.rules = [g.choice(alts), key]
-        g.disp = ["", ""]
-        g.compute_args()
-        g.maydiverge = g.may_diverge()
-        groups.append(g)
+    groups += common_prefix_groups(random.Random(seed + 17), 80 if tier == "quick" else 400, len(groups) + 1)
     inputs = F.all_inputs(alpha, maxlen)
     rngi = random.Random(seed + 18)
     for _ in range(40 if tier == "quick" else 200):         # a few longer lines: key, newline, key, ...
@@ -431,9 +438,23 @@ def check_C06(tier, seed, replay=None):
     inputs += [[F.A] * 70, [F.B] * 45 + [F.A] + [F.B] * 45, [F.B] * 60 + [F.A], [F.B] * 30 + [F.A] + [F.B] * 29]
     deepin = list(range(deep_first, len(inputs)))
     recin = add_rec(groups, inputs, nrand // 5, seed, alphabet=((F.A,), (F.B,), (F.UA,)), preds=True, errs=0.2)
+    # what a block sees AFTER a cache hit: alternatives with a common prefix rule; the hit ends before a newline, a multi-byte
+    # rune or the end of the input, and the blocks that run afterwards report their position and text (values, errors)
+    cpg = common_prefix_groups(random.Random(seed + 23), 40 if tier == "quick" else 300, len(groups) + 1)
+    for g in cpg:
+        g.tags.add("cp")
+    groups += cpg
+    cp_first = len(inputs)
+    inputs += F.all_inputs([[F.A], [F.NL], F.utf8(F.EACUTE)], 3)
+    rcp = random.Random(seed + 24)
+    for _ in range(20):
+        inputs.append([b for _k in range(rcp.randint(3, 6)) for b in rcp.choice([[F.A], [F.A], [F.NL], F.utf8(F.EACUTE), F.utf8(F.EURO)])])
+    cpin = list(range(cp_first, len(inputs)))
     run.add_witnesses([f["id"] for f in findings.active("C06")], groups, inputs, options)
 
     def plan_for(g):
+        if "cp" in g.tags:
+            return [(ii, oi) for ii in cpin for oi in (range(8, 16) if g.maydiverge else range(8))]
         if "rec" in g.tags:
             ois = [8 + i for i, c in enumerate(combos) if not c[0]] if g.maydiverge else list(range(8, 16))       # always under the budget
             return [(ii, oi) for ii in list(range(0, nin, 2)) + recin for oi in ois]
@@ -1014,6 +1035,30 @@ def check_C07(tier, seed, replay=None):
         for swap in (False, True):
             for tail in (False, True):
                 special.append(lambda gi, pk=pk, swap=swap, tail=tail: nullable_rule_prefix(gi, pk, swap, tail))
+
+    # ... the recursive rule itself NULLABLE, and the nullable prefix rule nullable only through a chain of further rules (so that
+    # the analysis learns it one round after it has learnt that the recursive rule is nullable): X <- (P X 'b')? ; P <- Q ; Q <- 'a'?
+    def nullable_chain(gi, xk, chain, order):
+        g = _G(gi)
+        t = lambda: g.lit([F.A])
+        names = {"X": 1, "P": 2, "Q": 3, "R": 4}
+        perm = [[1, 2, 3, 4], [4, 3, 2, 1], [2, 1, 4, 3]][order]             # which rule gets which index (names sort by index)
+        ix = lambda nm: perm[names[nm] - 1]
+        inner = g.seq([g.ref(ix("P")), g.ref(ix("X")), g.lit([F.B])])
+        xbody = [lambda: g.un("opt", inner), lambda: g.choice([inner, g.lit([])]), lambda: g.un("star", inner), lambda: g.seq([g.un("opt", inner), g.un("opt", t())])][xk]()
+        bodies = {"X": xbody, "P": g.ref(ix("Q")), "Q": g.ref(ix("R")) if chain == 2 else g.un("opt", t()), "R": g.un("opt", t())}
+        rules = [None] * 4
+        for nm, b in bodies.items():
+            rules[ix(nm) - 1] = b
+        g.rules = rules
+        g.disp = [""] * 4
+        g.compute_args()
+        g.maydiverge = True
+        return g
+    for xk in range(4):
+        for chain in (1, 2):
+            for order in range(3):
+                special.append(lambda gi, xk=xk, chain=chain, order=order: nullable_chain(gi, xk, chain, order))
 
     # left recursion confined to rules that the first rule does not reach (every rule can be an Entrypoint)
     def unreachable_lr(gi, kind):
@@ -1639,6 +1684,21 @@ def c04_groups(seed, tier):
     return groups, nostate, len(ucl)
 
 
+BOOT_INIT = """
+var bootVal, bootErr = Parse("boot", []byte("aaa"), Entrypoint("Boot_R"))
+
+func init() {
+	if bootErr != nil || bootVal == nil {
+		panic(fmt.Sprint("a Parse call made while the package-level variables are initialised failed: ", bootErr))
+	}
+	if v, err := Parse("boot", []byte("aa"), Entrypoint("Boot_R")); err != nil || v == nil {
+		panic(fmt.Sprint("a Parse call made from an init function failed: ", err))
+	}
+}
+"""
+BOOT_RULE = "\nBoot_R <- 'a'+ !.\n"
+
+
 def check_C04(tier, seed, replay=None):
     """every accepted grammar yields Go code that compiles, vets and initialises; one method per block with its scope's labels"""
     import itertools, re, subprocess, shutil, findings
@@ -1691,14 +1751,16 @@ def check_C04(tier, seed, replay=None):
         with render_lock:            # the receiver name is a field of the (shared) groups while they are rendered
             for g in gs:
                 g.recv = recv
-            txt = pack_text(gs)
+            # the package uses its own parser while it is being initialised: a package-level variable and an init function
+            # of the grammar's initializer call Parse (initialisation order: variables first, then init functions in file order)
+            txt = pack_text(gs, extra_init=BOOT_INIT) + BOOT_RULE
             for g in gs:
                 g.recv = "c"
         fl2 = list(fl)
         if "-optimize-grammar" in fl:
             # every group's entry rule, and every second other rule, stays usable as an entrypoint (several rules survive
             # the optimizer and share what it inlined into them)
-            keep = [g.sname() for g in gs] + [g.rname(k) for g in gs for k in range(2, len(g.rules) + 1) if (g.gi + k) % 2 == 0]
+            keep = ["Boot_R"] + [g.sname() for g in gs] + [g.rname(k) for g in gs for k in range(2, len(g.rules) + 1) if (g.gi + k) % 2 == 0]
             fl2 += ["-alternate-entrypoints", ",".join(keep)]
         v = P.Variant(id(job) % 100000 + rng.randint(0, 10**6), name, gs, fl2, peg_text=txt)
         res = dict(job=job, v=v, stage="ok", err="")
@@ -1716,10 +1778,14 @@ def check_C04(tier, seed, replay=None):
         if vt.returncode != 0:
             res.update(stage="vet", err=(vt.stderr + vt.stdout).decode(errors="replace")[-1500:])
             return res
-        try:
-            v.run([[]], [opt()], [])     # package initialisation only (every rangeTable(class) call)
-        except P.Inconclusive as e:
-            res.update(stage="init", err=str(e)[-800:])
+        # package initialisation only (every rangeTable(class) call, the package's own use of Parse while it initialises):
+        # the runner is started with an empty plan
+        rq0 = os.path.join(v.dir, "req_init.json")
+        with open(rq0, "w") as f_:
+            json.dump(dict(groups=[], inputs=[], options=[], plan=[], variant=v.vi), f_)
+        pi = subprocess.run([v.bin, rq0, os.path.join(v.dir, "obs_init.ndjson")], stdout=subprocess.DEVNULL, stderr=subprocess.PIPE, env=P.ENV, timeout=120)
+        if pi.returncode != 0:
+            res.update(stage="init", err=pi.stderr.decode(errors="replace")[-800:])
             return res
         src = open(os.path.join(v.dir, "g.go")).read()
         res["methods"] = re.findall(r"^func \(%s \*current\) (on\w+)\(([^)]*)\)" % recv, src, re.M)
